@@ -395,6 +395,12 @@ theorem commands_once_history_ranked (o : Oracle) (rk : Id → Nat) (R : Nat) (h
   have hns := run_never_stuck_of o fuel (hc_ranked o rk R hR hrk fuel hf) (focusWidget_ranked o rk R hR hrk fuel hf) root t0 steps
   ⟨hns, commands_once_history o fuel root t0 steps hns⟩
 
+/-- `commands_once_history_ranked` covers the class of `commands_once_history_wf`: handlers that never answer a focus
+notification with a focus command are ranked by the constant rank 0 (budget 4 instead of 2). -/
+theorem notifFF_is_ranked (o : Oracle) (hff : NotifFF o) : NotifRanked o (fun _ => 0) := by
+  intro w ph k
+  exact ⟨fun a ha w' hw' => absurd hw' ((hff w ph k).1 a ha w'), fun a ha w' hw' => absurd hw' ((hff w ph k).2 a ha w')⟩
+
 /-- The budget bound behind it: a command all of whose focus targets have rank `< b`, handled while a widget of rank `r`
 is focused, needs a nesting budget of at most `3 * max b r + 2`. -/
 theorem refocus_budget (o : Oracle) (rk : Id → Nat) (hrk : NotifRanked o rk) (fuel : Nat) (s : St) (c : Cmd) (b : Nat)
